@@ -1,7 +1,5 @@
 (* C03 - phrases follow the published layout and nothing else. *)
 From PS Require Import Base PackDefs ApiDefs SpecDefs SpecApi PackProofs PackTheorems ApiLemmas RefineProofs ApiTheorems.
-From PS Require Import CTiePack.
-From PS.Gen Require CFuns.
 From PS.Gen Require Import Consts Langs.
 Local Open Scope N_scope.
 
@@ -52,3 +50,12 @@ Example C03_vector :
   spec_phrase_nfkd (nth 0 langs (Build_lang [] [] [] false false false false [])) s 0 =
   [x72; x61; x76; x65; x6e; x20; x74; x61; x69; x6c; x20; x73; x77; x65; x61; x72; x20; x69; x6e; x66; x61; x6e; x74; x20; x67; x72; x69; x65; x66; x20; x61; x73; x73; x69; x73; x74; x20; x72; x65; x67; x75; x6c; x61; x72; x20; x6c; x61; x6d; x70; x20; x64; x75; x63; x6b; x20; x76; x61; x6c; x69; x64; x20; x73; x6f; x6d; x65; x6f; x6e; x65; x20; x6c; x69; x74; x74; x6c; x65; x20; x68; x61; x72; x73; x68; x20; x70; x75; x70; x70; x79; x20; x61; x69; x72; x70; x6f; x72; x74; x20; x6c; x61; x6e; x67; x75; x61; x67; x65].
 Proof. vm_compute. reflexivity. Qed.
+
+(* the constants of the public header are those of the published format *)
+From PS Require Import ConstsFrozen.
+Theorem C03_public_constants :
+  NUM_WORDS = 16 /\ LANG_SIZE = 2048 /\ STORAGE_SIZE = 32 /\
+  ST_OK = 0 /\ ST_NUM_WORDS = 1 /\ ST_LANG = 2 /\ ST_CHECKSUM = 3 /\ ST_UNSUPPORTED = 4 /\ ST_FORMAT = 5 /\
+  ST_MEMORY = 6 /\ ST_MULT_LANG = 7.
+Proof. exact public_consts_frozen. Qed.
+Print Assumptions C03_public_constants.
